@@ -1,6 +1,22 @@
 # per-property claim texts used by mk_manifest.py
 NA = {}
 CLAIMS = {
+ 'C09': {
+  'technique': 'Coq proofs of the batch-index, epoch-length and shard-partition lemmas on the sampler model; exact correspondence with the real samplers under a fed uniform stream',
+  'text': ('batch_indices_spec (strictly increasing, duplicate free, in range, i included iff its own uniform < q), batches_per_epoch (exactly `steps` batches, each from a fresh '
+           'block of uniforms, empties included), strided_shards_partition (l[r::W] disjoint, covering, sizes N/W (+1)), and the equality of sampler / engine / calibration '
+           'rates (generated expressions) are theorems for all N, q, W. The samplers are tensor/generator code: their texts are pinned and the model is compared exactly with '
+           'the real samplers fed with chosen float32 uniforms (incl. values at the threshold); DPDataLoader is exercised over loader lengths incl. 93, 99, 105 and element '
+           'structures. Partial: independence and uniformity of torch.rand are assumed, not verified.'),
+ },
+ 'C08': {
+  'technique': 'Coq loop-invariant proof on the generated bisection with an arbitrary epsilon function; binary64 correspondence with a synthetic accountant; end-to-end calibration runs',
+  'text': ('bisection_invariant: for an ARBITRARY accountant function eps_of, whenever the search generated from get_noise_multiplier returns sigma then eps(sigma) <= target '
+           'and target - eps(sigma) <= tolerance (out-of-fuel and MAX_SIGMA are the error outcomes); the engine calibrates for exactly epochs x len(loader) steps at the accounted '
+           'rate (generated arguments). The generated search is run on binary64 in Coq against get_noise_multiplier with a synthetic accountant (bit-exact sigma); real '
+           'accountants are used for direct and engine-level runs (epsilon at the true step count vs target). Partial: termination under monotonicity is not proved; the '
+           'direct-API float step count is a recorded finding.'),
+ },
  'C02': {
   'technique': 'Coq proofs over R of the clipping bound, neighbouring-batch sensitivity and ghost-norm identities on the generated clip expression; neighbouring-batch runs on the real optimizers',
   'text': ('For the clip factor expression generated from the optimizers (flat, adaptive, per-layer, ghost coefficient: min(1, C/(n+1e-6))): ||clip(g)|| <= C, '
